@@ -82,14 +82,14 @@ Toks(e, need, st) ==
   IN IF paren THEN << <<40>> >> \o bar \o inner \o << <<41>> >> ELSE inner
 
 RuleToks(r, st) ==
-  (IF st.docs THEN << <<47, 47, 47, 32, 100, 10>> >> ELSE <<>>)
+  (IF st.docs THEN << <<47, 47, 47, 32, 100, 13, 120, 9, 10>> >> ELSE <<>>)      \* "/// d<CR>x<TAB><LF>": a lone CR does not end the line
   \o << r.name, <<61>> >> \o (IF r.ty = "" THEN <<>> ELSE << r.tych >>) \o << <<123>> >>
   \o (IF st.lead THEN << <<124>> >> ELSE <<>>) \o Toks(r.e, 1, st) \o << <<125>> >>
 
 RECURSIVE AllToks(_, _)
 AllToks(rules, st) == IF rules = <<>> THEN <<>> ELSE RuleToks(rules[1], st) \o AllToks(Tail(rules), st)
 
-Text(rules, st) == (IF st.docs THEN <<47, 47, 33, 32, 103, 10>> ELSE <<>>) \o Join(AllToks(rules, st), st) \o (IF st.gap = "line" THEN <<10>> ELSE <<>>)
+Text(rules, st) == (IF st.docs THEN <<47, 47, 33, 32, 103, 13, 104, 13, 10>> ELSE <<>>) \o Join(AllToks(rules, st), st) \o (IF st.gap = "line" THEN <<10>> ELSE <<>>)
 
 Styles == {
   [par |-> "min", gap |-> "sp",    lead |-> FALSE, esc |-> "raw",   num |-> "plain", docs |-> FALSE, leadin |-> FALSE],
